@@ -175,6 +175,28 @@ CLI_STREAM = {
 
 CLI_PREBUILD = [("/repo", ["cargo", "build", "--offline", "--features", "cli", "--bins", "--target-dir", "/verif/.build/cli-target"])]
 
+UP_STREAM = {
+    "name": "up",
+    "quick": {"cases": 900, "args": ["--maxvars=6", "--maxops=14"]},
+    "thorough": {"cases": 30000, "args": ["--maxvars=7", "--maxops=24"]},
+    "shrink_levels": [
+        {"cases": 2000, "args": ["--maxvars=2", "--maxops=3"]},
+        {"cases": 2000, "args": ["--maxvars=3", "--maxops=4"]},
+        {"cases": 2000, "args": ["--maxvars=4", "--maxops=6"]},
+    ],
+}
+
+HASH_STREAM = {
+    "name": "hash",
+    "quick": {"cases": 600, "args": ["--maxvars=6", "--maxops=25"]},
+    "thorough": {"cases": 20000, "args": ["--maxvars=8", "--maxops=40"]},
+    "shrink_levels": [
+        {"cases": 900, "args": ["--maxvars=2", "--maxops=6"]},
+        {"cases": 900, "args": ["--maxvars=3", "--maxops=8"]},
+        {"cases": 900, "args": ["--maxvars=4", "--maxops=12"]},
+    ],
+}
+
 BDD_RULE = ("operation programs over RobddBuilder (random/linear/reversed orders, AllIteTable or LruIteTable with hooked "
             "capacity 2^0..2^3, hooked unique-table capacity 4..16 so the table grows repeatedly); a case is non-trivial when "
             "at least one result has a node whose child is a node; distinct = distinct program text")
@@ -471,5 +493,46 @@ PROPS = {
                       "CNF converters' node tables denote the input text (cli_formula_to_bdd_spec, cli_cnf_to_bdd_spec).",
         "level_note": "Trusted: Lean kernel; allowed axioms; harness+driver. As strong as its links (C05, C08, C17); the tools' glue (weights for unnamed variables, default weights, order configuration) is validated by the cli stream.",
         "explanation": "C19.* theorems; cli stream: printed counts vs brute force from the text, JSON vs truth table of the text, and the composed model reproduces the JSON byte for byte.",
+    },
+    "C09": {
+        "modules": ["RsddModel.Props.C09"],
+        "streams": [UP_STREAM],
+        "rule": "CNFs (unit, duplicate-literal, tautological clauses, an empty clause in one of ten, unused indices) with random decide/pop walks on the "
+                "real SATSolver: decisions of any variable and polarity incl. already assigned ones and re-decisions after backtracking, pops whenever "
+                "something was pushed; after construction and after every command the result, model, satisfied flag, hash, stack depth, "
+                "difference_iter and (hook) both watch-list vectors are observed; non-trivial = more than one command with propagation taking place",
+        "trusted": ["modelled not verified: bit_set::BitSet (function / ascending iteration), primal::Primes (trial division, proved prime), u128 wrapping_mul as multiplication mod 2^128"],
+        "assumptions": ["hash clause: conditional on the product of all literal primes being below 2^128 (hash_injective_partial) — the code uses wrapping_mul and the property states the clause without the bound",
+                        "fixpoint clause: CNF in Cnf::new normal form (always true for CNFs built through the public constructor)"],
+        "level_text": "Kernel-checked about the mirrored two-watched-literal propagator and state stack: every assigned literal is entailed by the CNF and the "
+                      "decisions after any decide/pop history (decide_sound, new_sound, history_sound), UNSAT only when no model extends the decisions "
+                      "(unsat_sound, history_unsat_sound), the watch invariant is preserved across decide, UNSAT-aborted decide and pop, and gives the "
+                      "fixpoint: no falsified and no unit clause (watch_invariants_preserved, fixpoint, history_fixpoint), pop restores the earlier "
+                      "state exactly (pop_restores), the satisfied flag is exact (satflag_exact, satset_exact), the hash is the product of the primes "
+                      "of the removed literal occurrences and path independent (hash_formula, hash_path_independent) and, without wrap-around, equal "
+                      "hashes imply equal residuals (hash_injective_partial); decideOrig_misses_unit is the negative theorem for the pinned watch "
+                      "replacement.",
+        "level_note": "Trusted: Lean kernel; allowed axioms; harness+driver. The hash clause is inherently conditional (wrapping_mul); watch lists are not restored by pop (proved irrelevant to observables).",
+        "explanation": "C09.* theorems; up stream: every observation vs brute-force entailment / fixpoint / flag / hash-vs-residual, pop vs the earlier observation, and exact equality with the mirrored model incl. watch lists.",
+    },
+    "C11": {
+        "modules": ["RsddModel.Props.C11Bdd", "RsddModel.Props.C06"],
+        "streams": [HASH_STREAM],
+        "rule": "one program of builder operations evaluated in five builders (ROBDD under two orders, compressing SDD builder under one vtree, "
+                "uncompressed SDD builder under another, semantic-hash SDD builder) and CNFs compiled bottom-up and top-down under two orders; the "
+                "semantic hash (fields U32_TINY, U32_SMALL, U64_LARGEST, weights exported from create_semantic_hash_map) of the last four results, of "
+                "their negations, cached twice and recomputed, all compared with the defining weighted sum of the specified function; results and "
+                "equality classes of the semantic-hash builder; non-trivial = at least two distinct non-constant hash values",
+        "trusted": ["modelled not verified: the ChaCha stream behind create_semantic_hash_map (the actual weights are exported and checked to sum to one)",
+                    "hash-identified builders are correct only absent hash collisions: the unconditional statement is false by pigeonhole; theorems carry CollisionFree, the stream reports a wrong result over the 64-bit field as a violation"],
+        "assumptions": ["fixed field and weight map for cached hashes (property text)", "no hash collision among the functions of a history (semantic builders)"],
+        "level_text": "Kernel-checked: the hash of a free diagram (every ROBDD of every order, every decision-DNNF) with weights summing to one is the "
+                      "weighted sum of the function it denotes, so diagrams of one function hash equally whatever the order or history "
+                      "(same_function_same_hash, hash_is_denotational), the negation hashes to one minus the hash (neg_hash_add, neg_hash); the "
+                      "decision-DNNF store identified by hash is correct under CollisionFree (C06.compileTopdown_correct_semantic_partial). The SDD "
+                      "half (hash of SDDs, cached = recomputed, the semantic SDD builder) is being added in Props/C11.lean; until then it rests on "
+                      "the hash stream.",
+        "level_note": "Trusted: Lean kernel; allowed axioms; harness+driver. Last sentence of the property is conditional by nature (collisions).",
+        "explanation": "C11Bdd.* theorems; hash stream: all representations of one function vs the defining sum, negation, cached vs recomputed, semantic builder results and equality.",
     },
 }
